@@ -95,7 +95,22 @@ impl ProgramLines {
         for (line_number, tokens) in self.list_tokens() {
             let line = tokens
                 .iter()
-                .map(|token| token.to_string())
+                .enumerate()
+                .map(|(i, token)| {
+                    let word = token.to_string();
+                    // A numeric literal can only follow a symbol directly if it was typed
+                    // with a leading decimal point (`A .5`). Listed as `A 0.5` it would be
+                    // read back as the symbol `A0` followed by `.5`, because blanks are
+                    // insignificant, so keep the leading point.
+                    match (i.checked_sub(1).map(|prev| &tokens[prev]), token) {
+                        (Some(Token::Symbol(_)), Token::NumericLiteral(_)) => match word.strip_prefix('0') {
+                            Some("") => String::from(".0"),
+                            Some(rest) if rest.starts_with('.') => rest.to_string(),
+                            _ => word,
+                        },
+                        _ => word,
+                    }
+                })
                 .collect::<Vec<String>>()
                 .join(" ");
             let line_source = format!("{} {}\n", line_number, line);
